@@ -47,6 +47,10 @@ func spellPath(r *vu.Rng, c []string) string {
 		}
 	case 3:
 		return "/" + names[r.Intn(3)] + "/.." + base
+	case 4:
+		return base + "/."
+	case 5:
+		return base + "/" + names[r.Intn(3)] + "/.."
 	}
 	return base
 }
@@ -175,11 +179,22 @@ func gen(r *vu.Rng, i int) []string {
 			if r.Chance(1, 20) {
 				wh = 5 + r.Intn(3)
 			}
-			off := r.Range(-4, 9)
+			off := int64(r.Range(-4, 9))
 			if r.Chance(1, 5) {
-				off = r.Range(0, 40)
+				off = int64(r.Range(0, 40))
 			}
-			ops = append(ops, fmt.Sprintf("seek %d %d %d", r.Intn(nslots), off, wh))
+			slot := r.Intn(nslots)
+			if r.Chance(1, 12) {
+				// an offset no file can have (never the range in between, which memFS would try
+				// to allocate): the Write that follows must fail, not crash
+				off = []int64{1 << 50, 1 << 62, 1<<62 + 5, 1<<63 - 1}[r.Intn(4)]
+				wh = 0
+				ops = append(ops, fmt.Sprintf("seek %d %d %d", slot, off, wh))
+				ops = append(ops, fmt.Sprintf("write %d %s", slot, vu.Hex(r.Bytes(r.Range(1, 3)))))
+				ops = append(ops, fmt.Sprintf("fstat %d", slot))
+				continue
+			}
+			ops = append(ops, fmt.Sprintf("seek %d %d %d", slot, off, wh))
 		case x < 76 && nslots > 0:
 			ops = append(ops, fmt.Sprintf("readdir %d %d", r.Intn(nslots), r.Range(-1, 2)))
 		case x < 80 && nslots > 0:
